@@ -385,8 +385,8 @@ def init_check(chk):
             chk.violation("init probe (%s): flex failed: %s" % (bk, r.err[-400:]), {"kind": "init-build"})
             continue
         exe = os.path.join(d, "i.exe")
-        c = util.run(["gcc", "-w", "-g", "-fsanitize=address,undefined", "-fno-sanitize-recover=all",
-                      "-o", exe, out], cwd=d, env=util.clean_env(), timeout=120)
+        c = util.run(["gcc", "-w", "-g", "-fsanitize=address,undefined", "-fno-sanitize-recover=all"] +
+                     runner.scov.cflags() + ["-o", exe, out], cwd=d, env=util.clean_env(), timeout=120)
         if c.rc != 0:
             chk.violation("init probe (%s) does not compile: %s" % (bk, c.err.decode("latin1")[-600:]),
                           {"kind": "init-build"})
